@@ -88,6 +88,18 @@ def oracle_c01(cfgl, lines):
     tomb = cfg.get("tomb") == "1"
     truth, ever = {}, {}          # key -> version | None ; key -> set of versions ever inserted
     restarted_removed = set()     # keys removed before a restart without a tombstone log (may legitimately reappear)
+    # an update the admission filter rejects deletes the older disk copy (store.enqueue): without the tombstone log that
+    # delete is as volatile as an explicit one ("either the tombstone log or RecoverMode::None must be enabled ...")
+    adm = cfg.get("admit", "all")
+    def rejected(k, size):
+        if adm == "all":
+            return False
+        if adm in ("none", "throttle"):
+            return True
+        if adm.startswith("size<"):
+            return size + 8 >= int(adm[5:]) - 64      # estimated size, with a margin for the bound itself
+        return k not in set(map(int, adm.split(",")))
+    implicit_removed = set()
     held = False
     for n, l in enumerate(lines):
         name, kv, r, nw, ew, wl = parse(l)
@@ -101,7 +113,12 @@ def oracle_c01(cfgl, lines):
             return (n, f"{name}: {r}")
         if name in ("ins", "sins"):
             k, v = int(kv["k"]), int(kv["ver"])
-            truth[k] = v; ever.setdefault(k, set()).add(v); restarted_removed.discard(k)
+            truth[k] = v; ever.setdefault(k, set()).add(v)
+            # (the storage writer's force() skips only the writer's own check: the entry still passes store.enqueue's filter)
+            if rejected(k, int(kv.get("size", 64))):
+                implicit_removed.add(k)
+            else:
+                restarted_removed.discard(k); implicit_removed.discard(k)
         elif name == "rm":
             truth[int(kv["k"])] = None
         elif name == "clear":
@@ -109,7 +126,7 @@ def oracle_c01(cfgl, lines):
                 truth[k] = None
         elif name == "reopen":
             if not tomb:
-                restarted_removed |= {k for k, v in truth.items() if v is None}
+                restarted_removed |= {k for k, v in truth.items() if v is None} | implicit_removed
         elif name in ("get", "gof"):
             k = int(kv["k"])
             res = lookup_result(r)
@@ -119,7 +136,11 @@ def oracle_c01(cfgl, lines):
                 continue
             key, ver, ln, corrupt, src, fetched = res
             if name == "gof" and fetched:
-                truth[k] = int(kv["ver"]); ever.setdefault(k, set()).add(int(kv["ver"])); restarted_removed.discard(k)
+                truth[k] = int(kv["ver"]); ever.setdefault(k, set()).add(int(kv["ver"]))
+                if rejected(k, int(kv.get("size", 64))):
+                    implicit_removed.add(k)
+                else:
+                    restarted_removed.discard(k); implicit_removed.discard(k)
             if key != k:
                 return (n, f"lookup of key {k} returned a value written for key {key}")
             if corrupt:
@@ -130,6 +151,8 @@ def oracle_c01(cfgl, lines):
                     continue      # documented: without the tombstone log a removed entry may reappear after a restart
                 return (n, f"lookup of key {k} returned version {ver} although the key was removed / never inserted")
             if ver != want:
+                if k in restarted_removed and ver in ever.get(k, ()):
+                    continue      # same documented case: the delete implied by a rejected update was lost with the restart
                 return (n, f"lookup of key {k} returned version {ver}, the latest completed insert is version {want}")
     return None
 
